@@ -15,7 +15,9 @@ This is the only file that knows how the comparison API of rsatoolbox looks.  It
 
 Tolerances (tied to the mechanism): tau-a equals the correctly rounded rational; rho-a 1e-14 (a
 rational evaluated in floats); closed forms 1e-9; the conjugate-gradient path (sigma_k a matrix)
-1e-5; Bures 2e-6 relative to the traces (square roots of eigenvalues that are exactly 0 are
+5e-5 = 5 x the relative residual 1e-5 at which scipy's cg stops, three solves enter one value
+(observed: <= 8e-6 on the catalogue, <= 1.6e-5 over 3000 random SPD matrices with cond(V) up to 785);
+Bures 2e-6 relative to the traces (square roots of eigenvalues that are exactly 0 are
 computed as sqrt(1e-16)).
 """
 from __future__ import annotations
@@ -50,7 +52,7 @@ DIRECT = {'cosine': 'compare_cosine', 'corr': 'compare_correlation', 'spearman':
 CLAUSE = {'cosine': 'b', 'corr': 'b', 'spearman': 'c', 'rho-a': 'c', 'kendall': 'd', 'tau-a': 'd',
           'cosine_cov': 'e', 'corr_cov': 'e', 'bures': 'f', 'bures_metric': 'f'}
 ATOL_CLOSED = 1e-9
-ATOL_CG = 1e-5
+ATOL_CG = 5e-5
 ATOL_RHO = 1e-14
 RTOL_BURES = 2e-6
 
